@@ -188,13 +188,39 @@ def run_shard(ctx):
                 from ofxtools.Client import OFXClient
                 data = OFXClient("http://x", version=151, prettyprint=False, close_elements=False).serialize(inst)
                 ctx.sample({"cls": name, "seedstr": seedstr, "form": "sgml-unclosed v151", "bytes_tail": data[-300:].decode("utf_8", "replace")})
+    big_documents(ctx)
     online.flush(ctx)
+
+
+def big_documents(ctx, only=None):
+    """Files well beyond 64 KiB, full of multi-byte characters, at several byte alignments (readers that work in blocks)."""
+    import datetime
+    import decimal
+    from ofxtools.models import BANKTRANLIST, STMTTRN
+    from ofxtools.utils import UTC
+
+    for align in ([only] if only is not None else range(ctx.shard % 4, 12, 4)):
+        t0 = datetime.datetime(2020, 1, 1, tzinfo=UTC)
+        trns = [STMTTRN(trntype="DEBIT", dtposted=t0 + datetime.timedelta(days=i), trnamt=decimal.Decimal(-i) / 100, fitid=f"F{i:05d}",
+                        name=("汉é" * 14)[: 28] + ("€" if i % 2 else "ü"), memo=("Ωж😀" * 30)[: 80 + (i * 7 + align) % 60] + "x" * align)
+                for i in range(420)]
+        inst = BANKTRANLIST(*trns, dtstart=t0, dtend=t0 + datetime.timedelta(days=500))
+        s0 = modelwalk.snap(inst)
+        case = {"cls": "BANKTRANLIST", "big": align}
+        ctx.current_case = case
+        for (form, version, pretty, close) in FORMS:
+            roundtrip(ctx, inst, s0, form, version, pretty, close, dict(case, form=form, version=version))
+        ctx.count("big_documents")
 
 
 def replay(ctx, case):
     online.set_ctx(ctx)
     online.install_init_monitor()
     online.install_to_etree_monitor()
+    if case.get("big") is not None:
+        big_documents(ctx, only=case["big"])
+        online.flush(ctx)
+        return
     cls = ref_decl.all_classes()[case["cls"]]
     forms = [(f, v, p, c) for (f, v, p, c) in FORMS]
     if case.get("form") and case["form"] != "etree":
